@@ -50,8 +50,9 @@ def gen_slice(rng, n):
 
 def gen_selector(rng, pool, stats_cls=None, kinds=("n", "i", "s", "w"), filt=None):
     """pool: list of values the selector will be applied to (never empty; may hold scalars)."""
-    hit = rng.random() < 0.8
-    target = rng.choice(pool) if pool else None
+    hit = rng.random() < 0.88
+    containers = [v for v in pool if isinstance(v, (dict, list)) and len(v)] if pool else []
+    target = rng.choice(containers) if (containers and rng.random() < 0.8) else (rng.choice(pool) if pool else None)
     weights = {"n": 4, "i": 3, "s": 2, "w": 2, "f": 3}
     ks = [k for k in kinds for _ in range(weights.get(k, 1))]
     k = rng.choice(ks)
@@ -115,4 +116,6 @@ def gen_segments(rng, doc, nmax=5, kinds=("n", "i", "s", "w"), filt=None, desc_p
         segs.append(seg)
         nl = ref.apply_segment(seg, [((), v) for v in current], ctx)
         current = [v for _, v in nl][:80]
+        if not current and rng.random() < 0.7:
+            break  # nothing selected any more: further segments only add empty cases
     return segs, current
